@@ -6,12 +6,14 @@ frames = tuple of tuples of frequencies in Hz drawn from a 4-frequency alphabet 
 Alphabets (per phase p; octave k = (0,-1,1,-2)[(p // 2) % 4], f0 = 440 * 2**k is exact on the MIDI scale):
   family "oct"   (f0, f0*2^(.49/12), f0*2^(.51/12), 2 f0)      exact octave pair: |midi diff| == 12 exactly
                                                               (window 12.0 = exact-threshold states), chroma 9
-  family "wrap"  g0 = f0*2^(3/12) (chroma ~0): (g0*2^(-.51/12), g0*2^(-.49/12), g0, 2 g0)
+  family "wrap"  g0 = f0*2^(3/12) (chroma ~0): (g0*2^(-.51/12), g0*2^(-.49/12), g0, g0*2^(11.98/12))
                                                               quarter-tone neighbours sit at chroma 11.49 / 11.51:
-                                                              the circular (mod 12) distance is needed
-Every inexact pitch distance is either >= 1e-3 semitone away from every window in use or within 1e-6 of it
-(only the inexact octave g0 / 2 g0 against window 12.0: those states are refused by the model and counted as
-skipped); asserted at import time for all phases (`lattice_margin`).
+                                                              the circular (mod 12) distance is needed; the last
+                                                              member is a near-octave (chroma distances .02/.47/.49;
+                                                              an inexact octave 2 g0 would sit within rounding
+                                                              distance of the window 12.0)
+Every inexact pitch distance (raw and chroma) is >= 0.0099 semitone away from every window in use; asserted at
+import time for all phases (`lattice_margin`), so the model never refuses a state of these spaces.
 
 Pair space  S: identical time base, n <= 2 frames, every (ref subset, est subset) per frame (256 per frame);
                thorough: + n = 3 with one frame (position p % 3) restricted to a 4 x 4 panel.  Family = ("oct",
@@ -58,7 +60,7 @@ def alphabet(phase, fam):
         a = (f0, f0 * 2.0 ** (0.49 / 12), f0 * 2.0 ** (0.51 / 12), 2.0 * f0)
     else:
         g0 = f0 * 2.0 ** (3.0 / 12)
-        a = (g0 * 2.0 ** (-0.51 / 12), g0 * 2.0 ** (-0.49 / 12), g0, 2.0 * g0)
+        a = (g0 * 2.0 ** (-0.51 / 12), g0 * 2.0 ** (-0.49 / 12), g0, g0 * 2.0 ** (11.98 / 12))
     assert all(S.MIN_FREQ <= f <= S.MAX_FREQ for f in a) and list(a) == sorted(a)
     return a
 
@@ -87,13 +89,12 @@ def lattice_margin():
                         if isinstance(d, Fr):
                             continue
                         for w in CHAIN:
-                            if abs(d - w) > 1e-6:       # closer ones are refused by the model (Undefined)
-                                best = min(best, abs(d - w))
+                            best = min(best, abs(d - w))
     return best
 
 
-if lattice_margin() < 1e-3:
-    raise core.HarnessError("multipitch pitch lattice has a distance within 1e-3 semitone of a window")
+if lattice_margin() < 0.0099:
+    raise core.HarnessError("multipitch pitch lattice has an inexact distance within 0.0099 semitone of a window")
 
 
 # ---------------------------------------------------------------------------------- time bases
@@ -210,13 +211,22 @@ def _variant_block(rt, et, ref_comps, est_comps):
     return Block(ref_comps + est_comps, make)
 
 
-def s_blocks(phase, fam, nmax, panel3=None):
+def s_blocks(phase, fam, nmax, panel3=None, drop_all_empty=False):
     """identical time base, n = 0..nmax frames, all (ref subset, est subset) per frame; optional n = 3 block with
-    one frame from a panel product"""
+    one frame from a panel product.  drop_all_empty: leave out the (family independent) states in which every
+    frame is empty on both sides (used when a second family is added to a space)."""
     al = alphabet(phase, fam)
     sub = subsets(al)
     pairs = [(r, e) for r in sub for e in sub]
-    blocks = [_same_block(ref_times(phase, n), [pairs] * n) for n in range(nmax + 1)]
+    blocks = []
+    for n in range(nmax + 1):
+        t = ref_times(phase, n)
+        if not drop_all_empty:
+            blocks.append(_same_block(t, [pairs] * n))
+            continue
+        nonempty = [p for p in pairs if p != ((), ())]
+        for k in range(n):        # first k frames empty, frame k not empty, the rest free
+            blocks.append(_same_block(t, [[((), ())]] * k + [nonempty] + [pairs] * (n - k - 1)))
     if panel3:
         pp = [(r, e) for r in panel(al, panel3) for e in panel(al, panel3)]
         comps = [pairs, pairs, pairs]
@@ -225,7 +235,9 @@ def s_blocks(phase, fam, nmax, panel3=None):
     return blocks
 
 
-def d_blocks(phase, fam, ns, ref_size, est_size, skip_same=False):
+def d_blocks(phase, fam, ns, ref_size, est_size, skip_same=False, first_ref_nonempty=False):
+    """time-base variants x panel frames.  first_ref_nonempty: the first reference frame is never empty, so that
+    no state coincides with a state of the other family (all-empty frames are family independent)."""
     al = alphabet(phase, fam)
     blocks = []
     for n in ns:
@@ -237,7 +249,10 @@ def d_blocks(phase, fam, ns, ref_size, est_size, skip_same=False):
                 continue
             # identical base: the all-empty reference already occurs in the S space (family independent)
             rpn = [f for f in rp if f] if name == "same" else rp
-            blocks.append(_variant_block(rt, et, [rpn] * n, [ep] * len(et)))
+            rcomps = [rpn] * n
+            if first_ref_nonempty and n:
+                rcomps[0] = [f for f in rp if f]
+            blocks.append(_variant_block(rt, et, rcomps, [ep] * len(et)))
     return blocks
 
 
